@@ -208,6 +208,7 @@ RULE = (
     "(verified feasible) for the quadratic goals. Non-trivial = another goal's optimum has a clearly worse value of the selected goal."
     " A fifth of the systems have two sources with proportional captures."
     " Rounded targets that stay in the gamut are fitted as int64 and as float arrays: equal intensities."
+    " The total-intensity request is exactly 0 (float or int) in a quarter of the 'number' cases."
 )
 
 PROP = Prop(
